@@ -577,7 +577,8 @@ def run_unit(res, tier):
     dis = corr.diff(cases, impl, model)
     found = 0
     for c, o in zip(cases, impl):
-        res.count_case(c, nontrivial=(o not in ("none", "0", "")), kind="unit:" + c.split()[0] + ":" + (o.split()[0] if o else "empty")[:8])
+        kd = ("n%d" % (o.count("|") + 1 if o else 0)) if c.startswith("cond.items") else (o.split()[0] if o else "empty")[:8]
+        res.count_case(c, nontrivial=(o not in ("none", "0", "")), kind="unit:" + c.split()[0] + ":" + kd)
         v = unit_oracle(c, o)
         if v and res.fail(v[0], "C14 on input `%s`: implementation answered `%s`: %s" % (c[:300], o[:200], v[1]),
                           {"case": c, "impl": o, "signature": v[0]}):
